@@ -22,7 +22,7 @@ ASSUMPTIONS = [
     "all ppci gen rows are in service when _update_p runs (checked per case)",
     "float rounding inside pandapower covered by the comparison tolerance 1e-7 relative (1e-6 MVA for solver-dependent quantities)",
 ]
-TRUSTED = ["python re-implementation of the guards G01p/G01q/G01gp/G01gq (vf/c01_pf.py:py_guards), cross-checked against the Coq guards on every case"]
+TRUSTED = ["python re-implementation of the guards G01p/G01q (vf/c01_pf.py:py_guards), cross-checked against the Coq guards on every case"]
 
 TOL_S = 2e-6      # MVA, nodal residual (solver tolerance 1e-8 p.u.)
 
@@ -92,14 +92,9 @@ def _oracle_balance(ctx, net, x, case, dc=False):
 
 
 def _classify(x, k, which):
+    # after the repair of pfsoln every bus class is governed by the averaging guard G01p / G01q
     g01p, g01q, g01gp, g01gq, has_gen, is_ref = pf.py_guards(x, k)
-    if which == "p":
-        if is_ref and has_gen:
-            return (not g01gp), "C01-zip-at-gen-bus"
-        return (not g01p), "C01-zip-average"
-    if has_gen:
-        return (not g01gq), "C01-zip-at-gen-bus"
-    return (not g01q), "C01-zip-average"
+    return ((not g01p) if which == "p" else (not g01q)), "C01-zip-average"
 
 
 def _compare(ctx, x, net, model, impl, case, cands, obs, F):
@@ -139,10 +134,10 @@ def _compare(ctx, x, net, model, impl, case, cands, obs, F):
             bad.append("res_bus %d: model %s impl %s" % (pb, [float(v) for v in m], i))
     # predicted nodal residual and the flow-sum hypothesis
     for k in range(x.nb):
-        rp, rq, f, g1, g2, g3, g4 = resid_m[k]
+        rp, rq, f, g1, g2 = resid_m[k]
         pg = pf.py_guards(x, k)
-        if (g1, g2, g3, g4) != tuple(pg[:4]):
-            bad.append("guards of bus %d: Coq %s python %s" % (k, (g1, g2, g3, g4), pg[:4]))
+        if (g1, g2) != tuple(pg[:2]):
+            bad.append("guards of bus %d: Coq %s python %s" % (k, (g1, g2), pg[:2]))
         if k in obs:
             fi = F.get(k, 0j)
             # xward internal branches are reported inside res_xward; add them to the reported flows
@@ -195,7 +190,7 @@ def _oracle_only(ctx, net, net_js, opts):
     return True
 
 
-YBUS_CASES = 10
+YBUS_CASES = 8
 
 
 def _prepare(ctx, net, opts, terms, pend, sample=False, yb=None):
@@ -206,6 +201,9 @@ def _prepare(ctx, net, opts, terms, pend, sample=False, yb=None):
         return False
     if len(net.dcline):
         ctx.count("dcline_nets")
+    if "V" not in net._ppc["internal"]:
+        ctx.count("pf_bypassed_only_reference_buses")      # powerflow.py bypasses the solver when every bus is a reference bus
+        return False
     x = pf.extract(net)
     case = _case_json(net_js, opts)
     want_yb = yb is not None and len(yb[0]) < ctx.n(YBUS_CASES, 10 * YBUS_CASES) and x.nb <= 8
@@ -250,7 +248,7 @@ def _prepare(ctx, net, opts, terms, pend, sample=False, yb=None):
     if any(not pf.py_guards(x, k)[0] or not pf.py_guards(x, k)[1] for k in range(x.nb)):
         ctx.count("G01_false")
     if any((not pf.py_guards(x, k)[2] or not pf.py_guards(x, k)[3]) and pf.py_guards(x, k)[4] for k in range(x.nb)):
-        ctx.count("G01g_false_at_gen_bus")
+        ctx.count("zip_load_at_gen_bus")
     if len(set(x.lookup[[int(b) for b in net.bus.index]])) < len(net.bus):
         ctx.count("fused_buses")
     terms.append(pf.run_all_term(x))
@@ -271,34 +269,34 @@ def _dc_oracle(ctx, rng, dterms, dpend, net=None):
     cands, obs, F = _oracle_balance(ctx, net, x, case, dc=True)
     bus = net._ppc["bus"]
     rows = [[float(bus[k, pf.PD]), float(bus[k, pf.GS])] for k in range(x.nb)]
+    # reported constant-impedance powers per ppc bus in the order of the model's shunt list (shunt, ward, xward)
+    net_sh = []
+    for d in x.shunts:
+        if d["tab"] == "shunt":
+            net_sh.append((d["bus"], float(net.res_shunt.p_mw.at[d["idx"]])))
+        else:
+            ps = float(net[d["tab"]].ps_mw.at[d["idx"]]) * (1 if d["on"] else 0)
+            net_sh.append((d["bus"], float(net["res_" + d["tab"]].p_mw.at[d["idx"]]) - ps))
     dterms.append(pf.run_dc_term(x))
-    dpend.append((x, rows, case, cands))
+    dpend.append((x, rows, case, cands, net_sh))
     ctx.case({"net_sha": hashlib.sha1(net_js.encode()).hexdigest(), "dc": True}, nontrivial=True)
     ctx.count("dc_cases")
 
 
-def _dc_compare(ctx, x, rows, case, cands, model):
+def _dc_compare(ctx, x, rows, case, cands, model, net_sh):
     bad = []
     for k in range(x.nb):
-        pd_m, gs_m, dcdef, g = model[k]
+        pd_m, gs_m, cons_m, sh_m = model[k]
         if not (pf.close(pd_m, rows[k][0], 1e-9) and pf.close(gs_m, rows[k][1], 1e-9)):
             bad.append("DC ppc bus row %d: model PD,GS %s impl %s" % (k, (float(pd_m), float(gs_m)), rows[k]))
-        gs = sum((Fraction(d["p"]) * Fraction(d["step"]) * (Fraction(d["bkv"]) / Fraction(d["vn"])) ** 2 * (1 if d["on"] else 0)
-                  for d in x.shunts if d["bus"] == k), Fraction(0))
-        v = pf.cq.round_bits(Fraction(x.vs[k]), pf.BITS)
-        if g != (gs == 0 or v * v == 1):
-            bad.append("guard G01dc of bus %d: Coq %s python %s" % (k, g, not g))
+        impl_sh = [v for kk, v in net_sh if kk == k]
+        if len(impl_sh) != len(sh_m) or any(not pf.close(a, b, 1e-9) for a, b in zip(sh_m, impl_sh)):
+            bad.append("DC shunt/ward impedance results at bus %d: model %s impl %s" % (k, [float(v) for v in sh_m], impl_sh))
     ctx.corr_checked += 1
     if bad:
         ctx.disagreement("; ".join(bad[:4]), case)
     for k, which, val in cands:
-        pd_m, gs_m, dcdef, g = model[k]
-        what = "DC power flow: nodal P balance at ppc bus %d violated by %.6g MW (model predicts %.6g)" % (k, val, float(dcdef))
-        if (not g) and abs(float(dcdef) - val) <= 2 * TOL_S and not bad:
-            ctx.violation("C01-dc-shunt-vm", what, case)
-            ctx.count("known:C01-dc-shunt-vm")
-        else:
-            ctx.violation("spec", what, case)
+        ctx.violation("spec", "DC power flow: nodal P balance at ppc bus %d violated by %.6g MW" % (k, val), case)
 
 
 def _corpus(ctx):
@@ -323,7 +321,7 @@ def run(ctx, only=None):
                 _dc_oracle(ctx, rng, dterms, dpend, net=net)
             else:
                 _prepare(ctx, net, opts, terms, pend)
-        n = ctx.n(80, 1500)
+        n = ctx.n(60, 1500)
         k = 0
         tries = 0
         while k < n and tries < 3 * n:
@@ -333,7 +331,7 @@ def run(ctx, only=None):
                     "calculate_voltage_angles": True}
             if _prepare(ctx, net, opts, terms, pend, sample=k < 2, yb=yb):
                 k += 1
-        for _ in range(ctx.n(20, 300)):
+        for _ in range(ctx.n(16, 300)):
             _dc_oracle(ctx, rng, dterms, dpend)
     else:
         for net, opts in only:
@@ -346,9 +344,9 @@ def run(ctx, only=None):
     t_impl = time.time() - ctx.t0
     req = "Base.QN Base.QC C01.Model"
     with ThreadPoolExecutor(max_workers=3) as ex:      # the three model evaluations are independent
-        f_main = ex.submit(lambda: ctx.coq_eval("c01", req, terms, shard=10, timeout=280) if terms else [])
-        f_yb = ex.submit(lambda: ctx.coq_eval("c01y", req + " C01.YbusModel", yb[0], shard=4, timeout=280) if yb[0] else [])
-        f_dc = ex.submit(lambda: ctx.coq_eval("c01dc", req, dterms, shard=8, timeout=280) if dterms else [])
+        f_main = ex.submit(lambda: ctx.coq_eval("c01", req, terms, shard=5, timeout=900) if terms else [])
+        f_yb = ex.submit(lambda: ctx.coq_eval("c01y", req + " C01.YbusModel", yb[0], shard=3, timeout=900) if yb[0] else [])
+        f_dc = ex.submit(lambda: ctx.coq_eval("c01dc", req, dterms, shard=6, timeout=900) if dterms else [])
         model, ym, dmodel = f_main.result(), f_yb.result(), f_dc.result()
     for (x, net, impl, case, cands, obs, F), m in zip(pend, model):
         _compare(ctx, x, net, m, impl, case, cands, obs, F)
@@ -370,8 +368,8 @@ def run(ctx, only=None):
                     bad.append("bus %d branch flow sum: model %r, result tables %r" % (k, fm, f))
         if bad:
             ctx.disagreement("Ybus assembly: " + "; ".join(bad[:3]), case)
-    for (x, rows, case, cands), m in zip(dpend, dmodel):
-        _dc_compare(ctx, x, rows, case, cands, m)
+    for (x, rows, case, cands, net_sh), m in zip(dpend, dmodel):
+        _dc_compare(ctx, x, rows, case, cands, m, net_sh)
 
 
 def replay(ctx, rec):
